@@ -42,8 +42,10 @@ CHECKS = {
          "Every open/search/close/expire history up to the bound, for every ordered pair of exclusion sets, is executed on a fresh segment; each search must equal the history-free answer; the engine double's registry reports use-after-close, close-during-use, double close and leaks. Exhaustive for part A up to the bound.", "§3 C16, §2.5"),
  "C19": ("fault_enumeration", "runtime monitoring with engine fault injection: the n-th call of every engine operation made to fail, for every n of the fault-free run",
          "For every build and merge scenario each engine call is failed in turn; the operation must return an error (no file for merges) or else produce a segment that passes the full vector oracle; the registry checks that nothing is leaked.", "§3 C19, §2.5"),
+ "C09": ("translation_validation", "runtime monitoring: per-file validation of the writer by an independent v16 decoder (forward) + frozen corpus of the pinned release re-read by the current code (backward)",
+         "Every file written during the check is decoded by a reader that does not share code with zapx and compared with the model (validation of the writer per file); 38 frozen files written by the pinned commit are re-opened by the current code and compared on the full query surface, so a symmetric writer+reader change is caught in both directions.", "§3 C09"),
 }
-NOT_YET = {"C09": "independent v16 decoder and frozen corpus not built yet (in progress)"}
+NOT_YET = {}
 
 def main():
     props = [json.loads(l) for l in open(os.path.join(V, "properties.jsonl"))]
